@@ -291,6 +291,12 @@ G_Term(cls, m, n, b, seed, depth, mode) ==
        \* diagonal operators in the role of Cholesky factors / blocks (DiagLinearOperator has its own _cholesky_solve)
        [] cls = "BlockInterDiag" -> Op_BlockInter(Op_Diag(IF mode = 1 THEN G_Pos(b1 \o <<2, n \div 2>>, seed + 3) ELSE G_Int(b1 \o <<2, n \div 2>>, seed + 3)), -3)
        [] cls = "CholDiag" -> Op_Chol(Op_Diag(G_Pos(b1 \o <<n>>, seed + 3)), seed % 2)
+       \* concatenations whose FIRST block is an identity (its product is the right-hand side itself): [I | B] and [I ; B]
+       [] cls = "CatICols" -> Op_Cat(<<Op_Identity(n, b1), G_Term("Dense", n, n, b1, seed + 3, 0, 0)>>, -1)
+       [] cls = "CatIRows" -> Op_Cat(<<Op_Identity(n, b1), G_Term("Dense", n, n, b1, seed + 3, 0, 0)>>, -2)
+       [] cls = "InterpLeft" ->
+            LET km == 2 + (seed % 2) p == 1 + (seed % 2)
+            IN Op_InterpLeft(G_Term("Dense", km, n, b, seed + 3, 0, 0), G_InterpIdx(m, p, km, b, seed), G_Small(b \o <<m, p>>, seed + 2))
        [] cls = "TriRepeat" ->
             LET up == seed % 2 L == G_LowerTri(n, <<>>, seed)
                 base == Op_TriT(IF up = 1 THEN T_Transpose(L) ELSE L, up)
@@ -315,7 +321,7 @@ G_AllClasses == <<"Dense", "User", "Diag", "ConstDiag", "Identity", "Zero", "Toe
 G_SquareOnly == {"BlockInterDiag", "CholDiag", "KronAddedKronDiag", "MixedSpectrum", "AddedDiagKBc", "TriRepeat", "BlockDiagRepeat", "BlockInterRepeat", "SumBatchRepeat", "AddedDiagRootI", "AddedDiagKronI", "CholKronTriU", "LowRankHuge", "ConstMulI", "BlockDiagConstMulI", "InterpRootSameIdx", "MatmulTri", "LRRAddedDiagI", "AddedDiagI", "SumI", "Diag", "ConstDiag", "Identity", "Toeplitz", "Tri", "Chol", "CholU", "Root", "LowRankRoot", "Kron3", "KronTri",
                  "KronDiag", "KronAddedDiag", "SumKron", "AddedDiag", "LRRAddedDiag", "PsdSum", "Mul", "BlockDiag",
                  "BlockInter", "Perm", "TransPerm"}
-G_LeafClasses == {"BlockInterDiag", "CholDiag", "KronAddedKronDiag", "MixedSpectrum", "AddedDiagKBc", "TriRepeat", "BlockDiagRepeat", "BlockInterRepeat", "SumBatchRepeat", "KernelM", "AddedDiagRootI", "AddedDiagKronI", "ConstMulBc", "CholKronTriU", "LowRankHuge", "ConstMulI", "BlockDiagConstMulI", "InterpRootSameIdx", "MixedDef", "AddedDiagRootConst", "AddedDiagBig", "DenseBig", "KronCholU", "BlockDiagCholU", "SumInterp", "MatmulTri", "LRRAddedDiagI", "AddedDiagI", "SumI", "Dense", "User", "Diag", "ConstDiag", "Identity", "Zero", "Toeplitz", "Chol", "CholU", "SumZ", "LowRankRoot", "KronTri",
+G_LeafClasses == {"InterpLeft", "CatICols", "CatIRows", "BlockInterDiag", "CholDiag", "KronAddedKronDiag", "MixedSpectrum", "AddedDiagKBc", "TriRepeat", "BlockDiagRepeat", "BlockInterRepeat", "SumBatchRepeat", "KernelM", "AddedDiagRootI", "AddedDiagKronI", "ConstMulBc", "CholKronTriU", "LowRankHuge", "ConstMulI", "BlockDiagConstMulI", "InterpRootSameIdx", "MixedDef", "AddedDiagRootConst", "AddedDiagBig", "DenseBig", "KronCholU", "BlockDiagCholU", "SumInterp", "MatmulTri", "LRRAddedDiagI", "AddedDiagI", "SumI", "Dense", "User", "Diag", "ConstDiag", "Identity", "Zero", "Toeplitz", "Chol", "CholU", "SumZ", "LowRankRoot", "KronTri",
                   "KronDiag", "SumKron", "LRRAddedDiag", "Perm", "TransPerm", "Kernel"}
 \* classes that only exist for PSD arguments
 G_PsdOnly == {"CholDiag", "MixedSpectrum", "BlockDiagRepeat", "BlockInterRepeat", "SumBatchRepeat", "CholKronTriU", "Chol", "CholU", "PsdSum", "Mul"}
